@@ -201,7 +201,8 @@ func (e *env) checkTermination(s *session, term error) {
 }
 
 // resolveUnacked advances the model over the prefix of s's unanswered
-// operations that the implementation applied before the stream died.
+// operations that the implementation applied before the stream died (with the
+// cascade of held operations simulated, see seqModel).
 func (e *env) resolveUnacked(s *session, prop string) {
 	var out []*opRec
 	for _, rec := range s.sent {
@@ -213,62 +214,14 @@ func (e *env) resolveUnacked(s *session, prop string) {
 	if len(out) == 0 {
 		return
 	}
-	impl := e.implSnapshot()
-	implHeld := map[uint64]bool{}
-	for _, p := range e.srv.VerifRIB().VerifPending() {
-		implHeld[p.ID] = true
+	var items []cutItem
+	for _, rec := range out {
+		items = append(items, cutItem{rec: rec})
 	}
-	m := e.model.Clone()
-	var applied []func()
-	match := func(k int) bool {
-		if len(diffSnap(modelSnapshot(m, "", -1), impl)) != 0 {
-			return false
-		}
-		// held operations of the prefix must be held, later ones must not be
-		for i, rec := range out {
-			_, isHeld := implHeld[rec.op.GetId()]
-			if i >= k && isHeld {
-				return false
-			}
-		}
-		return true
-	}
-	for k := 0; ; k++ {
-		if match(k) {
-			e.model = m
-			for _, f := range applied {
-				f()
-			}
-			if k > 0 {
-				e.probe("unacknowledged operations of a dead stream were applied (prefix)")
-			}
-			return
-		}
-		if k == len(out) {
-			break
-		}
-		rec := out[k]
-		v, en, _ := m.Expect(rec.op)
-		switch v {
-		case VProgram:
-			m.Apply(rec.op, en)
-			applied = append(applied, func() { rec.state = opProgrammed; rec.unacked = true })
-		case VEither:
-			// unspecified operation: it may or may not have been applied; try "applied" only if it has a key
-			if en != nil && implHas(impl, en.Key) == (rec.op.GetOp() != spb.AFTOperation_DELETE) {
-				m.Apply(rec.op, en)
-			}
-			applied = append(applied, func() { rec.state = opFailed; rec.unacked = true })
-		case VHold:
-			if !implHeld[rec.op.GetId()] {
-				// not processed: no longer prefix can match either, but keep scanning for the report
-			}
-			applied = append(applied, func() { rec.state = opHeld; rec.wasHeld = true })
-		case VFail:
-			applied = append(applied, func() { rec.state = opFailed; rec.unacked = true })
-		}
-	}
-	e.report(prop, "state-after-termination", "state matches no prefix of the dead stream's unanswered operations", fmt.Sprintf("unanswered: %d operations; diff against 'none applied': %v", len(out), diffSnap(modelSnapshot(e.model, "", -1), impl)), false)
+	last := s.elec
+	e.checkpoint(func() {
+		e.matchPrefix(items, 0, fmt.Sprintf("Modify RPC of session %d ended with %d operations unanswered", s.idx, len(out)), &last, prop)
+	})
 }
 
 func implHas(s Snapshot, k Key) bool { _, ok := s[k]; return ok }
